@@ -788,6 +788,169 @@ macro_rules! from_value_bits {
 from_value_bits!(from_value_bits_f32, f32, bits32);
 from_value_bits!(from_value_bits_f64, f64, bits64);
 
+/// float types as bit patterns
+trait FB: cgmath::BaseFloat + std::fmt::Debug + 'static {
+    fn bits(self) -> u64;
+    fn of_bits(b: u64) -> Self;
+    fn of(x: f64) -> Self;
+}
+impl FB for f32 {
+    fn bits(self) -> u64 { self.to_bits() as u64 }
+    fn of_bits(b: u64) -> f32 { f32::from_bits(b as u32) }
+    fn of(x: f64) -> f32 { x as f32 }
+}
+impl FB for f64 {
+    fn bits(self) -> u64 { self.to_bits() }
+    fn of_bits(b: u64) -> f64 { f64::from_bits(b) }
+    fn of(x: f64) -> f64 { x }
+}
+fn fbits<F: FB>(c: &[F]) -> Vec<u64> {
+    c.iter().map(|x| x.bits()).collect()
+}
+
+macro_rules! sv_vecs {
+    ($d:ident, $base:ident, $F:ident; $V:ident, $n:expr, [$f0:ident $(, $f:ident)*], $Tup:ty, |$t:ident| $tup:expr, |$u:ident| $untup:expr) => {{
+        let arr: [$F; $n] = std::array::from_fn(|i| $base[i]);
+        let want = fbits(&arr);
+        let who = stringify!($V);
+        let fields = |v: &$V<$F>| fbits(&[v.$f0 $(, v.$f)*]);
+        let r = catches(|| {
+            let v = $V::from(arr);
+            let back: [$F; $n] = v.into();
+            let rv: &$V<$F> = From::from(&arr);
+            let mut arr2 = arr;
+            let mv: &mut $V<$F> = From::from(&mut arr2);
+            let mvf = fields(mv);
+            let ar: &[$F; $n] = v.as_ref();
+            let mut w = v;
+            let am: &mut [$F; $n] = w.as_mut();
+            let amb = fbits(&am[..]);
+            let $t = arr;
+            let tup: $Tup = $tup;
+            let vt = $V::from(tup);
+            let tb: $Tup = v.into();
+            let rt: &$V<$F> = From::from(&tup);
+            let tr: &$Tup = v.as_ref();
+            let $u = tb;
+            let tbv: Vec<$F> = $untup;
+            let $u = *tr;
+            let trv: Vec<$F> = $untup;
+            let idx: Vec<$F> = (0..$n).map(|i| v[i]).collect();
+            let sl: Vec<$F> = v[..].to_vec();
+            vec![fields(&v), fbits(&back), fields(rv), mvf, fbits(&ar[..]), amb, fields(&vt), fbits(&tbv), fields(rt), fbits(&trv), fbits(&idx), fbits(&sl)]
+        });
+        let names = ["from-array", "into-array", "from-array-ref", "from-array-mut", "as_ref-array", "as_mut-array", "from-tuple", "into-tuple", "from-tuple-ref", "as_ref-tuple", "index", "index-full-range"];
+        match r {
+            Err(m) => return Outcome::Fail { sig: "special-value-view-panics", msg: format!("{}: a view or conversion of the components {:?} panicked: {}", who, arr, m) },
+            Ok(all) => {
+                for (k, got) in all.iter().enumerate() {
+                    ensure!(*got == want, "special-value-view", "{}: {} of the components {:?} gives bit patterns {:x?}, expected {:x?}", who, names[k], arr, got, want);
+                }
+            }
+        }
+        $d.configs += 12;
+    }};
+}
+
+/// the views and conversions carry *every* float value, compared as bit patterns: a NaN (which is not equal to itself),
+/// zeros of either sign, infinities, the smallest subnormal - in each slot in turn - through arrays, tuples and references
+/// to either, by value and by reference, read and write, without a panic
+fn special_views<F: FB>(d: &mut Draw) -> Outcome {
+    let wide = std::mem::size_of::<F>() == 8;
+    let special: F = match d.int(0, 5) {
+        0 => F::nan(),
+        1 => -F::nan(),
+        2 => F::of(-0.0),
+        3 => F::infinity() * if d.bool() { F::one() } else { -F::one() },
+        4 => F::of_bits(1),
+        _ => F::of_bits(if wide { d.bits64() } else { d.bits32() as u64 }),
+    };
+    let slot = d.below(4);
+    let mut base = [F::of(1.5), F::of(-2.25), F::of(3.125), F::of(-4.0625)];
+    base[slot] = special;
+    d.note("values (bit patterns), special slot", &(fbits(&base), slot));
+    sv_vecs!(d, base, F; Vector1, 1, [x], (F,), |t| (t[0],), |u| vec![u.0]);
+    sv_vecs!(d, base, F; Vector2, 2, [x, y], (F, F), |t| (t[0], t[1]), |u| vec![u.0, u.1]);
+    sv_vecs!(d, base, F; Vector3, 3, [x, y, z], (F, F, F), |t| (t[0], t[1], t[2]), |u| vec![u.0, u.1, u.2]);
+    sv_vecs!(d, base, F; Vector4, 4, [x, y, z, w], (F, F, F, F), |t| (t[0], t[1], t[2], t[3]), |u| vec![u.0, u.1, u.2, u.3]);
+    sv_vecs!(d, base, F; Point1, 1, [x], (F,), |t| (t[0],), |u| vec![u.0]);
+    sv_vecs!(d, base, F; Point2, 2, [x, y], (F, F), |t| (t[0], t[1]), |u| vec![u.0, u.1]);
+    sv_vecs!(d, base, F; Point3, 3, [x, y, z], (F, F, F), |t| (t[0], t[1], t[2]), |u| vec![u.0, u.1, u.2]);
+    // quaternion: x, y, z, then the scalar part
+    {
+        let arr = base;
+        let want = fbits(&arr);
+        let fields = |q: &Quaternion<F>| fbits(&[q.v.x, q.v.y, q.v.z, q.s]);
+        let r = catches(|| {
+            let q = Quaternion::from(arr);
+            let back: [F; 4] = q.into();
+            let rq: &Quaternion<F> = From::from(&arr);
+            let mut arr2 = arr;
+            let mq: &mut Quaternion<F> = From::from(&mut arr2);
+            let mqf = fields(mq);
+            let ar: &[F; 4] = q.as_ref();
+            let mut w = q;
+            let am: &mut [F; 4] = w.as_mut();
+            let amb = fbits(&am[..]);
+            let tup = (arr[0], arr[1], arr[2], arr[3]);
+            let qt = Quaternion::from(tup);
+            let tb: (F, F, F, F) = q.into();
+            let rt: &Quaternion<F> = From::from(&tup);
+            let tr: &(F, F, F, F) = q.as_ref();
+            let idx: Vec<F> = (0..4).map(|i| q[i]).collect();
+            let newq = Quaternion::new(arr[3], arr[0], arr[1], arr[2]);
+            vec![fields(&q), fbits(&back), fields(rq), mqf, fbits(&ar[..]), amb, fields(&qt), fbits(&[tb.0, tb.1, tb.2, tb.3]), fields(rt), fbits(&[tr.0, tr.1, tr.2, tr.3]), fbits(&idx), fbits(&q[..]), fields(&newq)]
+        });
+        let names = ["from-array", "into-array", "from-array-ref", "from-array-mut", "as_ref-array", "as_mut-array", "from-tuple", "into-tuple", "from-tuple-ref", "as_ref-tuple", "index", "index-full-range", "new(s, x, y, z)"];
+        match r {
+            Err(m) => return Outcome::Fail { sig: "special-value-view-panics", msg: format!("Quaternion: a view or conversion of the components {:?} panicked: {}", arr, m) },
+            Ok(all) => {
+                for (k, got) in all.iter().enumerate() {
+                    ensure!(*got == want, "special-value-view", "Quaternion: {} of the components {:?} gives bit patterns {:x?}, expected {:x?}", names[k], arr, got, want);
+                }
+            }
+        }
+        d.configs += 13;
+    }
+    // matrices: nested and flat arrays, columns
+    {
+        let flat4: [F; 16] = std::array::from_fn(|i| if i % 4 == slot && i / 4 == (slot + 1) % 4 { special } else { F::of((i as f64) * 0.5 - 3.25) });
+        let want = fbits(&flat4);
+        let r = catches(|| {
+            let nested: [[F; 4]; 4] = std::array::from_fn(|c| std::array::from_fn(|r| flat4[c * 4 + r]));
+            let m = Matrix4::from(nested);
+            let back: [[F; 4]; 4] = m.into();
+            let rm: &Matrix4<F> = From::from(&nested);
+            let rf: &Matrix4<F> = From::from(&flat4);
+            let af: &[F; 16] = m.as_ref();
+            let cols = |x: &Matrix4<F>| fbits(&[x.x.x, x.x.y, x.x.z, x.x.w, x.y.x, x.y.y, x.y.z, x.y.w, x.z.x, x.z.y, x.z.z, x.z.w, x.w.x, x.w.y, x.w.z, x.w.w]);
+            let idx: Vec<F> = (0..16).map(|i| m[i / 4][i % 4]).collect();
+            // a 3x3 and a 2x2 block that contain the special entry wherever possible
+            let (c0, r0) = (((slot + 1) % 4).min(1), slot.min(1));
+            let m3n: [[F; 3]; 3] = std::array::from_fn(|c| std::array::from_fn(|r| flat4[(c + c0) * 4 + r + r0]));
+            let m3 = Matrix3::from(m3n);
+            let b3: [[F; 3]; 3] = m3.into();
+            let (c0, r0) = (((slot + 1) % 4).min(2), slot.min(2));
+            let m2n: [[F; 2]; 2] = std::array::from_fn(|c| std::array::from_fn(|r| flat4[(c + c0) * 4 + r + r0]));
+            let m2 = Matrix2::from(m2n);
+            let b2: [[F; 2]; 2] = m2.into();
+            (vec![cols(&m), fbits(&back.concat()), cols(rm), cols(rf), fbits(&af[..]), fbits(&idx)], fbits(&b3.concat()) == fbits(&m3n.concat()), fbits(&b2.concat()) == fbits(&m2n.concat()))
+        });
+        match r {
+            Err(m) => return Outcome::Fail { sig: "special-value-view-panics", msg: format!("a matrix view or conversion of the entries {:?} panicked: {}", flat4, m) },
+            Ok((all, ok3, ok2)) => {
+                let names = ["from-nested-array", "into-nested-array", "from-nested-array-ref", "from-flat-array-ref", "as_ref-flat-array", "index"];
+                for (k, got) in all.iter().enumerate() {
+                    ensure!(*got == want, "special-value-view", "Matrix4: {} of the entries {:?} gives bit patterns {:x?}", names[k], flat4, got);
+                }
+                ensure!(ok3 && ok2, "special-value-view", "Matrix3 / Matrix2: the nested-array round trip changes a bit pattern");
+            }
+        }
+        d.configs += 8;
+    }
+    pass(if special.is_nan() { "nan" } else if special == F::zero() { "zero" } else if special.is_infinite() { "infinity" } else { "other" }, true)
+}
+
 fn mint_euler(d: &mut Draw) -> Outcome {
     let (a, b, c) = (d.f64_in(-3.0, 3.0), d.f64_in(-1.5, 1.5), d.f64_in(-3.0, 3.0));
     let e = Euler { x: Rad(a), y: Rad(b), z: Rad(c) };
@@ -857,6 +1020,8 @@ pub fn property() -> Property {
     add!("mint-euler", "f64", mint_euler, 100, 5000, 16, "every generated triple");
     add!("from_value_bits-f32", "f32", from_value_bits_f32, 200, 10_000, 8, "every value (raw bit patterns, signed zeros, the smallest subnormal, infinities, NaN)");
     add!("from_value_bits-f64", "f64", from_value_bits_f64, 200, 10_000, 8, "every value (raw bit patterns, signed zeros, the smallest subnormal, infinities, NaN)");
+    add!("special_value_views-f32", "f32", special_views::<f32>, 200, 10_000, 8, "every value (NaN of either sign, -0.0, infinities, the smallest subnormal, raw bit patterns) in every slot");
+    add!("special_value_views-f64", "f64", special_views::<f64>, 200, 10_000, 8, "every value (NaN of either sign, -0.0, infinities, the smallest subnormal, raw bit patterns) in every slot");
     Property {
         id: "C16",
         title: "Layout, indexing, conversions and swizzles preserve every component in order",
